@@ -317,9 +317,21 @@ func (d *dumper) val(v reflect.Value) {
 			return
 		}
 		keys := v.MapKeys()
-		sort.Slice(keys, func(i, j int) bool { return fmt.Sprint(keys[i]) < fmt.Sprint(keys[j]) })
 		if len(keys) > 0 && keys[0].Kind() == reflect.Uint16 {
 			sort.Slice(keys, func(i, j int) bool { return keys[i].Uint() < keys[j].Uint() })
+		} else {
+			type named struct {
+				k reflect.Value
+				s string
+			}
+			nn := make([]named, len(keys))
+			for i, k := range keys {
+				nn[i] = named{k, fmt.Sprint(k)}
+			}
+			sort.Slice(nn, func(i, j int) bool { return nn[i].s < nn[j].s })
+			for i := range nn {
+				keys[i] = nn[i].k
+			}
 		}
 		d.sb.WriteString("map[")
 		for i, k := range keys {
